@@ -300,6 +300,44 @@ std::string run_case(Src& s, CaseInfo& ci)
     else if (o.rc_scan != 0 && o.rc_scan != 46)
       failure = ci.desc + strf(": scan returned %d (expected success or ERROR_TOO_MANY_RE_FIBERS)", o.rc_scan);
     at_boundary = o.rc_scan == 46;
+    if (failure.empty() && !o.nerr)
+    {
+      // "after which the library remains usable": the same scanner, after the fiber limit was hit by a
+      // string regexp or by the `matches` operator (scan mode: a new thread of the regexp VM is started
+      // at every position of the operand), must scan the next buffer normally
+      int n = (int) s.range(300, 700);
+      std::string src = "rule r { strings: $a = /" + re + "/ condition: $a }\n"
+                        "rule m { condition: xs matches /a{2000}b|a{1999}c/ }\nrule ok { strings: $o = \"needle\" condition: $o and xs matches /^a+$/ }\n";
+      Rules R;
+      CompileResult cr = compile_simple(src, R, {ExtDef{YS_EXT_STR, "xs", 0, 0, std::string((size_t) n, 'a')}});
+      int e2 = 0;
+      ys_scanner* sc = cr.errors ? nullptr : ys_scanner_new(R.r, &e2);
+      if (sc)
+      {
+        ys_scan_opts so;
+        memset(&so, 0, sizeof so);
+        char* t1 = nullptr;
+        int rc1 = ys_scan(R.r, sc, (const uint8_t*) data.data(), data.size(), &so, &t1);
+        ys_free(t1);
+        ys_scanner_define(sc, YS_EXT_STR, "xs", 0, 0, "aaaa");
+        bytes small = "a needle";
+        char* t2 = nullptr;
+        int rc2 = ys_scan(R.r, sc, (const uint8_t*) small.data(), small.size(), &so, &t2);
+        std::string tr2 = t2;
+        ys_free(t2);
+        ys_scanner_free(sc);
+        ci.desc += strf("; then, same scanner (first scan returned %d; `matches` over %d a's), xs = \"aaaa\" and the buffer \"a needle\"", rc1, n);
+        if (rc1 != 0 && rc1 != 46)
+          failure = ci.desc + strf(": first scan returned %d (expected success or ERROR_TOO_MANY_RE_FIBERS)", rc1);
+        else if (rc2 != 0 || tr2.find("M default:ok") == std::string::npos)
+          failure = ci.desc + strf(": the next scan with the same scanner returns %d%s", rc2,
+                                   tr2.find("M default:ok") == std::string::npos ? " and rule `ok` does not match" : "");
+        if (rc1 == 46)
+          at_boundary = true;
+      }
+      else if (cr.errors && cr.first_error != 45 && cr.first_error != 49)
+        failure = ci.desc + ": second rule set rejected: " + cr.diag;
+    }
     break;
   }
   case 8:
